@@ -10,7 +10,7 @@ from props.c18 import lean_order_worlds
 
 THEOREMS = ["InfOCF.C19_constraint_iff", "InfOCF.C19_system_iff", "InfOCF.C19_two_sums_wrong", "InfOCF.C19_incremental",
             "InfOCF.C19_fast_eq_alt", "InfOCF.C17_front_loop_exact", "InfOCF.C19_mask_eq_eval", "InfOCF.C19_pareto_box", "InfOCF.C19_zero_prior_is_crep"]
-RULE = ("random prior rankings over 1-5 atoms (zero, random, sparse) x 1-4 revision conditionals (literal and compound, duplicates of "
+RULE = ("random prior rankings over 1-6 atoms (zero, random, sparse) x 1-4 revision conditionals (literal and compound, duplicates of "
         "antecedents, unfalsifiable and contradictory ones) x gamma modes (gamma+ fixed to zero / free) x fixed-value maps: c_revision's "
         "result is checked by the driver (non-negative integers, fixed values respected, revised ranking accepts every revision "
         "conditional, gamma- Pareto-minimal by the exact box test when gamma+ = 0); a None result is confronted with an exhaustive search of "
@@ -276,7 +276,7 @@ def recheck(case):
 
 
 def gen_case(rng):
-    n = rng.choice([1, 2, 2, 3, 3, 4, 4, 5])
+    n = rng.choice([1, 2, 2, 3, 3, 4, 4, 5, 6, 6, 6])
     N = 2 ** n
     style = rng.random()
     if style < 0.35:
@@ -297,9 +297,22 @@ def gen_case(rng):
         elif r < 0.6:
             x = core.gen_formula(rng, n, 1, 0.0)
             cons, ante = rng.choice([(x, x), (("T",), x), (("!", x), x)])
+        elif r < 0.75 and n >= 5:
+            # weak antecedent (tautology or disjunction): many verifying and falsifying worlds
+            cons = core.gen_formula(rng, n, 1, 0.0)
+            ante = rng.choice([("T",), ("|", ("a", rng.randrange(n)), ("!", ("a", rng.randrange(n)))), core.gen_formula(rng, n, 1, 0.0)])
         else:
             cons, ante = core.gen_cond(rng, n, 2, 0.05)
         conds.append([key, cons, ante])
+    if n >= 6:
+        # a conditional with more than 32 verifying or falsifying worlds: compound consequent under a tautological antecedent
+        a, b = rng.sample(range(n), 2)
+        la = ("a", a) if rng.random() < 0.5 else ("!", ("a", a))
+        lb = ("a", b) if rng.random() < 0.5 else ("!", ("a", b))
+        conds[0] = [conds[0][0], (rng.choice(["|", "&"]), la, lb), rng.choice([("T",), ("|", ("a", a), ("!", ("a", a)))])]
+        if rng.random() < 0.8:
+            # cheap worlds late in the enumeration order
+            ranks = [rng.randint(1, 4) for _ in range(N // 2)] + [rng.randint(0, 2) for _ in range(N - N // 2)]
     modes = [{"gpz": True}, {"gpz": False}]
     if rng.random() < 0.5:
         fk = rng.choice(keys)
